@@ -390,6 +390,27 @@ Definition ex_step (st : ex_state) (h : hook) (o : obj) : option (ex_state * obj
   | _, _ => Some (st, o)
   end.
 
+(* ---- the reserved-name hook (process_name, /repo edeb7cc) and the reserved-name loop of arguments.py ---- *)
+(* `while name in bad: name += "_"` ; fuel: one more than the longest bad name is always enough (Proofs: avoid_spec) *)
+Fixpoint avoid (fuel : nat) (bad : list string) (name : string) : string :=
+  match fuel with
+  | O => name
+  | S k => if mem name bad then avoid k bad (name ++ "_")%string else name
+  end.
+Definition max_len (l : list string) : nat := fold_right (fun s m => Nat.max (String.length s) m) 0 l.
+Definition avoid_all (bad : list string) (name : string) : string := avoid (S (max_len bad)) bad name.
+
+(* ExtractOperationsPlugin.process_name on a VariableDefinitionNode: while name in _operations_variables.values() *)
+Definition ex_process_name (st : ex_state) (name : string) : string := avoid_all (ex_constants st) name.
+
+(* ArgumentsGenerator.generate: the processed name of each variable (declaration order) goes through the plugins'
+   process_name hook, then `while name in used_names: name += "_"`, then joins used_names *)
+Fixpoint assign_names (hook : string -> string) (used : list string) (processed : list string) : list string :=
+  match processed with
+  | [] => []
+  | p :: r => let n := avoid_all used (hook p) in n :: assign_names hook (n :: used) r
+  end.
+
 (* ------------------------------------------------------------------ ClientForwardRefs *)
 (* _store_imported_classes: from_ = node.module.lstrip(".") *)
 Definition fr_imported (imports : list imp) : list (string * string) :=
@@ -893,6 +914,11 @@ Definition run_plugins (e : sexp) : sexp :=
           end
       | None, _ => sErr "plugins: bad plugin list"
       | _, None => sErr "plugins: bad package"
+      end
+  | L [A "assign"; L consts; L reserved; L processed] =>
+      match dAll dStr consts, dAll dStr reserved, dAll dStr processed with
+      | Some c, Some r, Some p => L (map A (assign_names (avoid_all c) r p))
+      | _, _, _ => sErr "plugins: assign"
       end
   | L [A "const_name"; A s] => A (const_name s)
   | L [A "unquote"; A s] => A (unquote s)
